@@ -1367,6 +1367,32 @@ void reb_simulation_rescale_var(struct reb_simulation* const r){
                 particles[i].vz /= scale;
             }
 
+            if (r->integrator == REB_INTEGRATOR_IAS15){
+                // IAS15 carries per-coordinate state from step to step (compensated
+                // summation terms and the predictor coefficients). The variational
+                // equations are linear, so this state is rescaled with the particles.
+                struct reb_integrator_ias15* const ri_ias15 = &(r->ri_ias15);
+                struct reb_dp7* const dp7s[6] = {&ri_ias15->g, &ri_ias15->b, &ri_ias15->csb, &ri_ias15->e, &ri_ias15->br, &ri_ias15->er};
+                for (unsigned int k=3*vc->index; k<3*(unsigned int)(vc->index+N) && k<ri_ias15->N_allocated; k++){
+                    ri_ias15->at[k] /= scale;
+                    ri_ias15->x0[k] /= scale;
+                    ri_ias15->v0[k] /= scale;
+                    ri_ias15->a0[k] /= scale;
+                    ri_ias15->csx[k] /= scale;
+                    ri_ias15->csv[k] /= scale;
+                    ri_ias15->csa0[k] /= scale;
+                    for (int d=0; d<6; d++){
+                        dp7s[d]->p0[k] /= scale;
+                        dp7s[d]->p1[k] /= scale;
+                        dp7s[d]->p2[k] /= scale;
+                        dp7s[d]->p3[k] /= scale;
+                        dp7s[d]->p4[k] /= scale;
+                        dp7s[d]->p5[k] /= scale;
+                        dp7s[d]->p6[k] /= scale;
+                    }
+                }
+            }
+
             if (r->integrator == REB_INTEGRATOR_WHFAST && r->ri_whfast.safe_mode == 0){
                 r->ri_whfast.recalculate_coordinates_this_timestep = 1;
             }
